@@ -323,6 +323,10 @@ def strict_data(wire):
     if SIG_VALUE in f:
         out['sig_value'] = buf[f[SIG_VALUE][2]:f[SIG_VALUE][3]]
         out['signed'] = buf[f[NAME][1]:f[SIG_VALUE][1]]
+    out['_off'] = {'signed': (f[NAME][1], f[SIG_VALUE][1]) if SIG_VALUE in f else None,
+                   'siginfo': (f[SIG_INFO][1], f[SIG_INFO][3]) if SIG_INFO in f else None,
+                   'sigvalue': (f[SIG_VALUE][2], f[SIG_VALUE][3]) if SIG_VALUE in f and f[SIG_VALUE][3] > f[SIG_VALUE][2] else None,
+                   'digest': None, 'tl': (0, el[2])}
     return out
 
 
@@ -357,4 +361,13 @@ def strict_interest(wire):
         d = dig[-1]
         v = T.read_tlv(d, 0, len(d))
         out['digest_comp'] = d[v[2]:v[3]]
+    out['n_digest_comps'] = len(dig)
+    doff = None
+    for c in T.walk(buf, f[NAME][2], f[NAME][3]):
+        if c[0] == 2 and c[3] > c[2]:
+            doff = (c[2], c[3])
+    out['_off'] = {'signed': (f[NAME][2], f[ISIG_VALUE][1]) if ISIG_VALUE in f else (f[NAME][2], el[3]),
+                   'siginfo': (f[ISIG_INFO][1], f[ISIG_INFO][3]) if ISIG_INFO in f else None,
+                   'sigvalue': (f[ISIG_VALUE][2], f[ISIG_VALUE][3]) if ISIG_VALUE in f and f[ISIG_VALUE][3] > f[ISIG_VALUE][2] else None,
+                   'digest': doff, 'tl': (0, el[2])}
     return out
